@@ -112,6 +112,8 @@ def main(argv=None):
             record("<static>", "instance-independent checks", "", Fail("%s:harness:static-crash" % args.prop, traceback.format_exc()[-600:]))
 
     truncated = False
+    hangs = 0
+    from .deep import LibraryHang, watchdog
     for cls in classes:
         cseed = args.seed * 1000003 + zlib.crc32(cls.__name__.encode())
         gen_rnd = random.Random(cseed)
@@ -140,11 +142,19 @@ def main(argv=None):
                 if nontrivial and len(out["samples"]) < 3 and out["cases"] % 7 == 3:
                     out["samples"].append(rep)
                 try:
-                    fails = rel(m, rel_rnd)
+                    with watchdog(how):
+                        fails = rel(m, rel_rnd)
+                except LibraryHang:
+                    fails = [Fail("%s:operation-does-not-terminate" % args.prop, "the relation on this instance was still running after %d s" % watchdog.LIMIT)]
+                    hangs += 1
                 except Exception as e:
                     fails = [Fail("%s:harness:relation-crash" % args.prop, traceback.format_exc()[-700:])]
                 for f in fails:
                     record(cls.__name__, how, rep, f)
+                if hangs >= 2:
+                    record(cls.__name__, "(run stopped)", "", Fail("%s:operation-does-not-terminate" % args.prop, "two evaluations did not terminate: the remaining instances were not evaluated"))
+                    truncated = True
+                    break
                 if args.time_budget and time.time() - t0 > args.time_budget:
                     truncated = True
                     break
